@@ -101,7 +101,7 @@ Retryable(k) == k \in {"connerr", "s408", "s429", "s500", "s502", "s503"}
 Request(k) ==
     /\ fetching /\ fres = "none"
     /\ idx < Len(servers)
-    /\ G!Resp(k)
+    /\ G!Resp(k, k = "chunked_ok" /\ ~cfg.hint)
     /\ hist' = IF Len(hist) < MaxHist THEN Append(hist, k) ELSE hist
     /\ IF k \in G!Non200
        THEN /\ retry' = IF Retryable(k) THEN Append(retry, servers[idx + 1]) ELSE retry
@@ -162,7 +162,7 @@ Spec == Init /\ [][Next]_vars /\ WF_vars(Next)
 
 ------------------------------------------------------------------------------
 Refines == [][ (\E r \in G!Readers : G!Call(r))
-               \/ (\E k \in G!Kinds : G!Resp(k))
+               \/ (\E k \in G!Kinds, amb \in BOOLEAN : G!Resp(k, amb))
                \/ (\E r \in G!Readers, ok \in BOOLEAN, m \in BOOLEAN : G!Ret(r, ok, m))
                \/ UNCHANGED gvars ]_vars
 
